@@ -8,6 +8,7 @@ Local Open Scope Z_scope.
     the probe cadence the text names. *)
 Theorem constants_ok_C04 :
   override_present = true /\ override_mode_guarded = true /\ override_uses_eligible_filter = true /\
+  loop_passes_reg_has_connected = true /\
   STALL_PROBE_ONE_IN_N = 100.
 Proof. repeat split; reflexivity. Qed.
 
